@@ -417,7 +417,22 @@ def run_C14(ctx):
         rule="arena seam (real _mi_arena_alloc_aligned / _mi_arena_free / _mi_arenas_collect on a private exclusive arena): A1 (70-block arena with 60 blocks taken: three threads claim 5, 4 and 3 blocks so that claims cross the bitmap word boundary and compete, two free again), A3 (a cross-word claim loses its final word to a competing claim and rolls back its initial word while a third thread frees other blocks of that word), A2 (arena free -- which schedules or performs a purge -- racing allocations that may take the same blocks, plus a collector after a clock tick), with purge delay default and 0. Oracle: successful claims are pairwise disjoint and inside the arena; the first and last 64 KiB of every claimed range keep their pattern (a purge racing a claim would zero it); at quiescence the in-use bitmap holds only the left-over bits and the whole arena can be allocated in one piece.",
         assumptions=COMMON_ASSUME[:2] + SCHED_ASSUME)
 
+def run_C16(ctx):
+    jobs = []
+    for v in ("rel", "dbg", "sec"):
+        b = ctx.build("h_arith", v)
+        jobs.append(dict(bin=b, args=["--prop", ctx.pid], env={}, tag=f"{v}/arith", timeout=900))
+    tot, samples, viol, infra, per_run, dl = agg_runs(ctx, jobs, parallel=3)
+    cov = dict(evaluations=tot["nodes"], distinct_nontrivial=tot["nontrivial"],
+        rule="exhaustive enumeration of the compiled functions (harness includes src/static.c): (1) every size 0..131072 and all class boundaries/powers of two up to PTRDIFF_MAX: block size >= request, monotone, <= 25% waste above 64 B, mi_good_size >= n, idempotent and equal to mi_usable_size(mi_malloc(n)) up to the medium limit (equality and idempotence in the unpadded build only: with padding the usable size is the exact request by design); (2) history independence: all ordered pairs (i,j) of class-edge small sizes, sequence malloc(i); malloc(j); malloc(i) with usable == good_size at each step and every entry of the fast-path table pointing to a page of exactly its class; (3) span bins for all slice counts 0..1024; (4) address recovery on real pages: every bin that requests map to, pages at up to 600 positions across two segments, every block index of every page and interior offsets {0,1,8,bs/2,bs-1}, plus large/huge/over-aligned (up to 128 MiB) blocks with offsets up to the documented interior-pointer limit; (5) mi_fast_divide == '/' for all bin block sizes (+-8) x all multiples in a page and all divisors 1..65536 x quotients 0..64 and the largest 32-bit numerators; (6) align/divide/overflow/bit-scan helpers on a 343-value boundary grid squared against 128-bit reference arithmetic. distinct_nontrivial = inputs above the trivial range counted by the harness (sizes > 64, pairs of different classes, bins spanning more than one segment, all divisors).",
+        samples=samples, exhaustive=not dl, oracle_checks=tot["checks"], runs=per_run)
+    return dict(coverage=cov, assumptions=COMMON_ASSUME[:2] + ["64-bit Linux; interior pointers are checked up to MI_MAX_SLICE_OFFSET_COUNT slices behind the page start (the documented limit for huge blocks)"], violations=viol, infra=infra)
+
 PROPS = {
+    "C16": dict(level="exploration", run=run_C16, replay=replay_file, engine="seq-explorer",
+        technique="exhaustive enumeration of finite input domains of the compiled arithmetic (all sizes up to twice the medium limit, all slice counts, all block indices of real pages, all 16-bit divisors) with executable oracles",
+        text="The whole relevant domain of each function is enumerated on the compiled code in release, debug and secure builds; exhaustive: true.",
+        note="trusted: reference arithmetic in the harness (128-bit), harness geometry assumptions stated in the rule"),
     "C02": dict(level="model_checking", run=run_C02, replay=replay_file, engine="schedule-explorer",
         technique="stateless model checking of the implementation: preemption-bounded exhaustive enumeration of thread interleavings (with bounded spurious weak-CAS failures) under a deterministic token scheduler over every atomic operation",
         text="Every schedule of each small program up to the completed preemption bound runs on the real allocator; ownership (overlap), contents of live blocks and crash-freedom are checked after every operation of every thread.",
